@@ -10,11 +10,12 @@
             here; the harness reports it as a parameter the model cannot take
             and the correspondence then counts as broken.
    burst  : lim.burst
-   tokens : lim.tokens in units of 10^-9 token (Go: float64 tokens); with an
-            integer rate and integer nanoseconds every quantity the Go code
-            computes is an exact multiple of this unit, so the model is exact
-            where the Go code rounds (see Corr/LimiterCorr.v for the skipped
-            neighbourhood of the decision threshold)
+   tokens : lim.tokens in units of 10^-9 token (Go: float64 tokens).  With an
+            integer rate and integer nanoseconds the real-number value of every
+            quantity the Go code computes is a whole number of these units, so
+            the model computes exactly what the Go code approximates in float64
+            (see Corr/LimiterCorr.v for the uncompared neighbourhood of the
+            decision threshold)
    last   : lim.last, nanoseconds.  The Go zero time.Time lies before every
             instant; instants here are offsets >= 0 from the construction of
             the limiter and `last` starts at 0, which is equivalent because the
